@@ -1,5 +1,6 @@
 pub mod c03;
 pub mod c04;
+pub mod c06;
 pub mod common;
 
 use crate::engine::Tier;
@@ -11,6 +12,7 @@ pub fn run(prop: &str, tier: Tier, seed: u64) -> i32 {
         "C03" => c03::run(tier, seed, &findings),
         "C04" => c04::run("C04", tier, seed, &findings),
         "C05" => c04::run("C05", tier, seed, &findings),
+        "C06" => c06::run(tier, seed, &findings),
         _ => {
             eprintln!("gev: unknown property {}", prop);
             2
@@ -33,6 +35,7 @@ pub fn replay(path: &str) -> i32 {
         "C03" => c03::replay(&v, path, &findings),
         "C04" => c04::replay("C04", &v, path, &findings),
         "C05" => c04::replay("C05", &v, path, &findings),
+        "C06" => c06::replay(&v, path, &findings),
         _ => {
             eprintln!("gev: unknown property in replay file");
             2
